@@ -847,15 +847,18 @@ def regex_substr(expression: exp.Expression) -> exp.Expression:
         # so we need to compensate by subtracting 1
         occurrence = exp.Literal(this=str(occurrence - 1), is_string=False)
 
+        extract = False
         if parameters := expression.args["parameters"]:
             # 'e' parameter doesn't make sense for duckdb
+            extract = "e" in parameters.this
             regex_parameters = exp.Literal(this=parameters.this.replace("e", ""), is_string=True)
         else:
             regex_parameters = exp.Literal(is_string=True)
 
         group_num = expression.args["group"]
         if not group_num:
-            if isinstance(regex_parameters.this, str) and "e" in regex_parameters.this:
+            if extract:
+                # 'e' extracts the first group unless another group is given
                 group_num = exp.Literal(this="1", is_string=False)
             else:
                 group_num = exp.Literal(this="0", is_string=False)
